@@ -1073,6 +1073,12 @@ impl<'ir, 'eng> FuelAsmBuilder<'ir, 'eng> {
         false_block: &BranchToWithArgs,
     ) -> Result<(), CompileError> {
         if true_block.block == false_block.block && true_block.block.num_args(self.context) > 0 {
+            if true_block.args == false_block.args {
+                // Both edges pass the same values to the same block (e.g. an `if` whose branches
+                // became empty before a later mem2reg gave the join block arguments):
+                // the branch is unconditional.
+                return self.compile_branch(true_block);
+            }
             return Err(CompileError::Internal(
                 "Cannot compile CBR with both branches going to same dest block",
                 self.md_mgr
